@@ -193,7 +193,11 @@ static void tls_run(const long *p, mvsim_runcfg *cfg, mvsim_runstats *st) {
   if (p[T_MODE] == 0) mvh_run_flags |= 1;
   wl_end(st, 1);
 }
-static void tls_stats(FILE *f) { fprintf(f, "\"x_key_indices_covered\":%ld", cover_count); }
+static void tls_stats(FILE *f) {
+  fprintf(f, "\"xb_key_indices_that_held_a_value\":\"");
+  for (int i = 0; i < NKEYS / 64; i++) fprintf(f, "%016llx", (unsigned long long)cover_keys[i]);
+  fprintf(f, "\"");
+}
 const mvh_class wl_tls = { "tls", T_NP, tls_names, tls_gen, tls_run, tls_stats, 0 };
 
 /* ================================================================== */
